@@ -76,6 +76,7 @@ var c01OpTab = []c01OpDef{
 	c01S("h=aaaaaaaa", "h", "aaaaaaaa"),
 	c01S("accept-charset=u", "accept-charset", "u"), // name index 15: exactly the 4-bit prefix boundary
 	c01S(":status=5", ":status", "5"),               // name index 14: just below it
+	c01S("=", "", ""),
 	{label: "End", kind: c01KEnd},
 	c01P(0), c01P(33), c01P(70), c01P(4096), c01P(8192), c01P(30), c01P(31),
 	c01L(0), c01L(70), c01L(4096), c01L(16384),
